@@ -323,7 +323,10 @@ pub fn on_thread<R: Send + 'static>(
 ) -> Result<R, Panic> {
     let h = std::thread::Builder::new()
         .stack_size(stack)
-        .spawn(move || catch(f))
+        .spawn(move || {
+            hooks_default();
+            catch(f)
+        })
         .expect("spawn");
     match h.join() {
         Ok(r) => r,
@@ -359,4 +362,13 @@ pub fn first_diff(a: &[f64], b: &[f64]) -> Option<usize> {
         return Some(a.len().min(b.len()));
     }
     (0..a.len()).find(|&i| !bits_eq(a[i], b[i]))
+}
+
+/// Default hook configuration of a worker thread.
+pub fn hooks_default() {
+    mimium_lang::verif::configure(mimium_lang::verif::Config {
+        record_state: false,
+        assert_bounds: true,
+        step_budget: 200_000_000,
+    });
 }
